@@ -40,8 +40,18 @@ def new_workspace(rng, nmods=None):
         mu = ws["files"][f"{m}.f90"]
         pname = f"smp{uid(ws)}{tag}"
         mu["mod_procs"].append(pname)
-        ws["files"][f"sub{tag}.f90"] = {"kind": "submodule", "name": f"sub{tag}", "parent": m,
-                                        "procs": [pname], "vars": [new_var(rng, ws, "integer")]}
+        su = {"kind": "submodule", "name": f"sub{tag}", "parent": m,
+              "procs": [pname], "vars": [new_var(rng, ws, "integer")], "types": []}
+        if mu["types"] and rng.random() < 0.6:
+            # a type local to the submodule that extends a type of its parent module (reached by
+            # host association through the submodule's ancestor only)
+            pt = rng.choice(mu["types"])
+            st = new_type(rng, ws, pt["name"])
+            su["types"].append(st)
+            ov = f"s{uid(ws)}{ident(rng, 1)}"
+            su["vars"].append({"name": ov, "type": f"type({st['name']})", "attrs": [], "doc": False})
+            su["stmts"] = [f"{ov}%{c['name']} = 1" for c in (pt["comps"][:1] + st["comps"][:1])]
+        ws["files"][f"sub{tag}.f90"] = su
     if rng.random() < 0.5:
         ws["files"][f"pp{tag}.F90"] = new_ppfile(rng, ws, f"pp{tag}")
     return ws
@@ -117,8 +127,41 @@ def new_module(rng, ws, name, earlier):
         others = [q["name"] for q in u["procs"] if q is not p and q["kind"] == "subroutine" and not q["args"]]
         if others and rng.random() < 0.5:
             p["calls"].append(rng.choice(others))
+    if earlier and rng.random() < 0.3:
+        # shadowing: the host module defines a name that one of its procedures also imports, with a
+        # different meaning, through a local USE ... ONLY (legal: the local import hides the host's)
+        m = rng.choice(earlier)
+        src = ws["files"][f"{m}.f90"]
+        imported = set()
+        for use in u["uses"]:
+            if use["mod"] == m:
+                imported |= {"*"} if use["only"] is None else {loc for loc, _ in use["only"]}
+        pub = lambda n: ((not src["private_default"]) or n in src["public"]) and \
+            n not in src.get("private_names", [])  # noqa: E731
+        cands = [("var", v) for v in src["vars"] if pub(v["name"]) and not v["type"].startswith("type(")] + \
+                [("proc", q) for q in src["procs"] if pub(q["name"]) and q["kind"] == "subroutine"]
+        cands = [c for c in cands if "*" not in imported and c[1]["name"] not in imported]
+        if cands:
+            kind, e = rng.choice(cands)
+            # the host's twin stays private, so that no third unit sees the name twice
+            u.setdefault("private_names", []).append(e["name"])
+            q = new_proc(rng, ws, "subroutine")
+            q["local_use"] = {"mod": m, "only": [[e["name"], e["name"]]]}
+            if kind == "var":
+                other = "logical" if e["type"] != "logical" else "integer"
+                u["vars"].append({"name": e["name"], "type": other, "attrs": [], "doc": False})
+                q["extra"] = [f"print *, {e['name']}"]
+            else:
+                twin = new_proc(rng, ws, "subroutine")
+                twin["name"] = e["name"]
+                twin["args"] = [new_var(rng, ws, "logical", ["intent(in)"]) for _ in range(len(e["args"]) + 1)]
+                u["procs"].append(twin)
+                q["extra_decl"] = [f"procedure({e['name']}), pointer :: pp{uid(ws)}"]
+                q["extra"] = [f"call {e['name']}({', '.join('1' for _ in e['args'])})"]
+            u["procs"].append(q)
     if u["private_default"]:
         names = [t["name"] for t in u["types"]] + [p["name"] for p in u["procs"]] + [v["name"] for v in u["vars"]]
+        names = [n for n in names if n not in u.get("private_names", [])]
         u["public"] = rng.sample(names, max(1, len(names) // 2))
     return u
 
@@ -148,10 +191,13 @@ def accessible_types(use, src, ws=None, depth=0):
 def new_program(rng, ws, name, mods):
     u = {"kind": "program", "name": name, "uses": [], "vars": [new_var(rng, ws, "integer")], "stmts": [],
          "includes": []}
+    if rng.random() < 0.25:
+        u["headless"] = True
     for m in rng.sample(mods, min(len(mods), rng.randint(1, 2))):
         src = ws["files"][f"{m}.f90"]
         u["uses"].append({"mod": m, "only": None})
-        pub = lambda n: (not src["private_default"]) or n in src["public"]  # noqa: E731
+        pub = lambda n: ((not src["private_default"]) or n in src["public"]) and \
+            n not in src.get("private_names", [])  # noqa: E731
         for t in src["types"]:
             if pub(t["name"]) and rng.random() < 0.8:
                 ov = f"x{uid(ws)}{ident(rng, 1)}"
@@ -178,6 +224,18 @@ def new_program(rng, ws, name, mods):
         for v in src["vars"][:2]:
             if pub(v["name"]) and not v["type"].startswith("type("):
                 u["stmts"].append(f"print *, {v['name']}")
+        # names that reach the program only *through* the used module (it uses another module and
+        # does not hide what it imports)
+        if not src["private_default"]:
+            for u2 in src["uses"]:
+                src2 = ws["files"].get(f"{u2['mod']}.f90")
+                if src2 is None or src2["kind"] != "module" or u2["only"] is not None:
+                    continue
+                pub2 = lambda n: ((not src2["private_default"]) or n in src2["public"]) and \
+                    n not in src2.get("private_names", [])  # noqa: E731
+                for v in src2["vars"][:2]:
+                    if pub2(v["name"]) and not v["type"].startswith("type("):
+                        u["stmts"].append(f"print *, {v['name']}  ! through {src['name']}")
     return u
 
 
@@ -223,8 +281,12 @@ def render_proc(p, ind="  "):
         ls.append(f"{ind}subroutine {p['name']}({args})")
     else:
         ls.append(f"{ind}function {p['name']}({args}) result(res)")
+    if p.get("local_use"):
+        ls.append(ind + render_use(p["local_use"]))
     for a in p["args"]:
         ls += decl(a, ind + "  ")
+    for d in p.get("extra_decl", []):
+        ls.append(f"{ind}  {d}")
     if p.get("self_type"):
         ls.append(f"{ind}  class({p['self_type']}) :: self")
     for v in p["locals"]:
@@ -236,6 +298,8 @@ def render_proc(p, ind="  "):
         ls.append(f"{ind}  print *, {v}")
     for c in p.get("calls", []):
         ls.append(f"{ind}  call {c}()")
+    for st in p.get("extra", []):
+        ls.append(f"{ind}  {st}")
     ls.append(f"{ind}end {p['kind']} {p['name']}")
     return ls
 
@@ -252,6 +316,8 @@ def render(unit):
             ls.append("  private")
             if unit["public"]:
                 ls.append("  public :: " + ", ".join(unit["public"]))
+        elif unit.get("private_names"):
+            ls.append("  private :: " + ", ".join(unit["private_names"]))
         for t in unit["types"]:
             head = "  type"
             if t["parent"]:
@@ -286,7 +352,8 @@ def render(unit):
                 ls += render_proc(p)
         ls.append(f"end module {unit['name']}")
     elif k == "program":
-        ls.append(f"program {unit['name']}")
+        if not unit.get("headless"):
+            ls.append(f"program {unit['name']}")
         for u in unit["uses"]:
             ls.append(render_use(u))
         ls.append("  implicit none")
@@ -296,19 +363,27 @@ def render(unit):
             ls += decl(v)
         for s in unit["stmts"]:
             ls.append("  " + s)
-        ls.append(f"end program {unit['name']}")
+        # a main program needs no PROGRAM statement: its statements then sit outside any named unit
+        ls.append("end" if unit.get("headless") else f"end program {unit['name']}")
     elif k == "include":
         for v in unit["vars"]:
             ls += decl(v, "")
     elif k == "submodule":
         ls.append(f"submodule ({unit['parent']}) {unit['name']}")
         ls.append("  implicit none")
+        for t in unit.get("types", []):
+            ls.append(f"  type, extends({t['parent']}) :: {t['name']}" if t["parent"] else f"  type :: {t['name']}")
+            for c in t["comps"]:
+                ls += decl(c, "    ")
+            ls.append(f"  end type {t['name']}")
         for v in unit["vars"]:
             ls += decl(v)
         ls.append("contains")
         for p in unit["procs"]:
             ls += [f"  module subroutine {p}(a)", "    integer, intent(in) :: a",
-                   f"    print *, a, {unit['vars'][0]['name'] if unit['vars'] else 'a'}", f"  end subroutine {p}"]
+                   f"    print *, a, {unit['vars'][0]['name'] if unit['vars'] else 'a'}"]
+            ls += ["    " + st for st in unit.get("stmts", [])]
+            ls.append(f"  end subroutine {p}")
         ls.append(f"end submodule {unit['name']}")
     elif k == "ppmodule":
         for mname, val in unit["macros"]:
@@ -463,6 +538,7 @@ def apply_operator(rng, ws, op=None):
         u["private_default"] = not u["private_default"]
         if u["private_default"] and not u["public"]:
             names = [t["name"] for t in u["types"]] + [p["name"] for p in u["procs"]]
+            names = [n for n in names if n not in u.get("private_names", [])]
             u["public"] = rng.sample(names, max(0, len(names) // 2))
         return {"op": op, "mod": u["name"], "private_default": u["private_default"]}
     if op == "retarget_extends":
